@@ -105,7 +105,34 @@ func (x *xf) isDist() bool {
 	return false
 }
 
+// corruptGraph is the panic value of checkGraph3/2: Inverse() of a freshly built join returned an object
+// graph that contains itself (results sharing storage).  Calling Apply/Inverse on it would overflow the
+// stack, which cannot be recovered from, so the run stops here with one failing invdesc case.
+type corruptGraph struct{ op string }
+
 func (x *xf) build3() model3d.Transform {
+	t := x.rawBuild3()
+	if x.kind == 'J' {
+		inv := t.Inverse()
+		if !saneTop3(inv) || !saneTop3(inv.Inverse()) {
+			panic(corruptGraph{"c05 invdesc3 " + x.tokens(3)})
+		}
+	}
+	return t
+}
+
+func (x *xf) build2() model2d.Transform {
+	t := x.rawBuild2()
+	if x.kind == 'J' {
+		inv := t.Inverse()
+		if !saneTop2(inv) || !saneTop2(inv.Inverse()) {
+			panic(corruptGraph{"c05 invdesc2 " + x.tokens(2)})
+		}
+	}
+	return t
+}
+
+func (x *xf) rawBuild3() model3d.Transform {
 	switch x.kind {
 	case 'T':
 		return &model3d.Translate{Offset: model3d.XYZ(x.v[0], x.v[1], x.v[2])}
@@ -133,7 +160,7 @@ func (x *xf) build3() model3d.Transform {
 	panic("bad kind")
 }
 
-func (x *xf) build2() model2d.Transform {
+func (x *xf) rawBuild2() model2d.Transform {
 	switch x.kind {
 	case 'T':
 		return &model2d.Translate{Offset: model2d.XY(x.v[0], x.v[1])}
@@ -430,6 +457,16 @@ func fewBits(xs ...float64) bool {
 }
 
 func run(c *hlib.Ctx) {
+	defer func() {
+		if r := recover(); r != nil {
+			cg, ok := r.(corruptGraph)
+			if !ok {
+				panic(r)
+			}
+			c.Emit(cg.op, "corrupt-object-graph")
+			c.Stat("corrupt-object-graph", 1)
+		}
+	}()
 	run3(c)
 	run2(c)
 	runMatrix(c)
@@ -443,6 +480,9 @@ func run(c *hlib.Ctx) {
 	runNest3(c)
 	runNest2(c)
 	runSmallDet(c)
+	runHist3(c)
+	runHistConj3(c)
+	runHist2(c)
 }
 
 func main() { hlib.Main("C05", run) }
